@@ -10,7 +10,8 @@ export GOFLAGS=-mod=mod GOPROXY=off GOSUMDB=off GOTOOLCHAIN=local
 export VERIF_TIER="$TIER" VERIF_ROOT="$ROOT" VERIF_SEED="${VERIF_SEED:-1}"
 cd "$ROOT/harness" || exit 3
 # go.sum = the repository's own sums + the harness-only modules
-cat /repo/go.sum go.sum.extra 2>/dev/null | sort -u > go.sum
+cat /repo/go.sum go.sum.extra 2>/dev/null | sort -u > "go.sum.tmp.$$"
+cmp -s "go.sum.tmp.$$" go.sum && rm -f "go.sum.tmp.$$" || mv -f "go.sum.tmp.$$" go.sum
 mkdir -p "$ROOT/bin" "$ROOT/evidence" "$ROOT/replays"
 BIN="$ROOT/bin/checks.$ID.$$.test"
 trap 'rm -f "$BIN"' EXIT
